@@ -94,6 +94,32 @@ def is_cancel_exc(e):
 # oracles
 # ---------------------------------------------------------------------------
 
+def o_outcome_stable(w, tr):
+    """C07 (a finished transfer keeps its result) / C17 end-to-end: the outcome reported once the
+    future was done is still the one reported when everything is quiescent."""
+    out = []
+    aud = getattr(w, 'audit', None)
+    if not aud or w.sched.outcome != 'ok':
+        return out
+    reenter = any(s.reenter for subs in w.subs.values() for s in subs)
+    for i, oc in w.outcomes.items():
+        a = aud.get(i)
+        if a is None or reenter:
+            continue
+        same = (a[0] == oc[0]) and (a[0] != 'exc' or a[1] is oc[1])
+        if not same:
+            out.append(('C07:finished-transfer-changed',
+                        f'transfer {i}: result() gave {oc[0]}:{oc[1]!r} when it finished but {a[0]}:{a[1]!r} once everything was quiescent'))
+    return out
+
+
+def final_outcome(w, idx):
+    aud = getattr(w, 'audit', None)
+    if aud and idx in aud and aud[idx][0] != 'notdone':
+        return aud[idx]
+    return w.outcomes.get(idx)
+
+
 def o_termination(w, tr):
     s = w.sched
     out = []
@@ -182,7 +208,7 @@ def o_exact(w, tr):
                                             f'part {p.get("PartNumber")} listed with {member}={p.get(member)!r}, S3 returned {have["cs"]!r}'))
                                 break
             st = info.get('stream')
-            if st is not None and st.seekable() and st.min_pos_seen < st.start:
+            if st is not None and hasattr(st, 'min_pos_seen') and st.seekable() and st.min_pos_seen < st.start:
                 out.append(('C01:upload:read-before-start', f'stream seeked to {st.min_pos_seen} < start {st.start}'))
         else:
             got = _dest_bytes(w, info)
@@ -350,7 +376,7 @@ def o_mpu(w, tr):
         if create is None or create['outcome'] != 'ok':
             continue          # the id never reached the library
         idx = create.get('tidx')
-        oc = w.outcomes.get(idx)
+        oc = final_outcome(w, idx)
         if oc is None:
             continue
         aborts = [c for c in calls if c['op'] == 'AbortMultipartUpload']
@@ -578,7 +604,7 @@ def _tagged_labels(w):
             if src == 'nonseekable':
                 up.add((info['idx'], 'UploadPartTask'))
                 up.add((info['idx'], 'PutObjectTask'))
-            elif src == 'seekable':
+            elif src in ('seekable', 'duck'):
                 up.add((info['idx'], 'UploadPartTask'))
         elif t['op'] == 'download' and t.get('dst') in ('nonseekable', 'special'):
             down.add((info['idx'], 'GetObjectTask'))
@@ -594,7 +620,7 @@ def o_memory(w, tr):
         return out
     END = 10 ** 9
     # uploads from streams: bytes read from user streams minus bytes of finished part requests
-    stream_uploads = [i for i in w.transfers if i['op'] == 'upload' and i['t'].get('src') in ('seekable', 'nonseekable')]
+    stream_uploads = [i for i in w.transfers if i['op'] == 'upload' and i['t'].get('src') in ('seekable', 'nonseekable', 'duck')]
     if stream_uploads:
         ev = []
         names = {f'src{i["idx"]}': i['idx'] for i in stream_uploads}
@@ -920,7 +946,7 @@ def o_bandwidth(w, tr):
 
 
 ALL_ORACLES = [o_termination, o_exact, o_streaming_order, o_failure_truth, o_mpu,
-               o_callbacks, o_progress, o_limits, o_memory, o_semaphores, o_barrier, o_isolation, o_bandwidth,
+               o_callbacks, o_progress, o_limits, o_memory, o_semaphores, o_barrier, o_isolation, o_bandwidth, o_outcome_stable,
                o_cancel, o_fs]
 
 
